@@ -152,7 +152,7 @@ func (r *Runtime) toValueProp(v Value) *valueProperty {
 		ret.setterFunc = o
 	}
 
-	if ret.getterFunc != nil || ret.setterFunc != nil {
+	if getter != nil || setter != nil {
 		ret.accessor = true
 	}
 
